@@ -430,6 +430,7 @@ type FuncContract struct {
 	Assigns   []string
 	Ghost     []string // free-form directives understood by the executor
 	Implements string  // name of the fnfield contract a closure implements
+	ImplDecl   string  // as declared (Implements is cleared once merged)
 	Props     []string // property ids this function is listed under
 	File      string
 	Line      int
@@ -708,6 +709,7 @@ func (cs *Contracts) LoadContractFile(path, pkg string, assumedFile bool) error 
 			cur = nil
 		case "implements":
 			cur.Implements = strings.TrimSpace(rest)
+			cur.ImplDecl = cur.Implements
 		case "lock", "field", "iface", "chan", "guard", "level", "sum", "endpoint":
 			cs.Directives = append(cs.Directives, &Directive{Kind: word, Text: rest, Pkg: pkg, File: path, Line: ln + 1})
 		default:
